@@ -7,4 +7,16 @@ META = {
         "note": "Trusted: Lean kernel; amx translation of the method bodies; SC atomics; usize as Nat. Tie: Gen/Rid.lean is regenerated from the source each run and the rid engine diffs the public API (sequential bounded-exhaustive + random + free-running threads) against the model.",
         "technique": "Lean 4 proof over model regenerated from source + differential correspondence",
     },
+    "C04": {
+        "text": "Theorems over the executable source models the driver runs: archive index = fold of an interpreter of register_file's effect skeleton (skeletons of zip.rs and tar.rs extracted each run, proved equal to each other and to the interpreted one); for every valid tree and every archive of it (any member order, optional ./) with a member per directory and a non-empty tree the archive view equals the tree's specification view (read, read_dir up to order, exists) and is independent of member order; the full-strength statement is kept and refuted by kernel-checked witnesses (F-C04: d/e/f.x without directory members; the empty archive); Embedded::from over the macro's tables equals the specification; FileSystem view equals it except for kind confusion (refuted + partial); every listed entry is readable; reads do not change the index. Unbounded in tree size, depth, contents and member order.",
+        "design_ref": "DESIGN.md §6 C04",
+        "note": "Trusted: Lean kernel; amx skeleton extraction; HashMap/Path/zip/tar/OS modelled. Tie: Gen/Archive.lean regenerated each run (skeleton equality by decide; the driver indexes with the extracted skeletons) and the src engine diffs read/read_dir/exists of the real FileSystem, Zip, Tar, Embedded built from generated trees against the model, with the generated tree as independent oracle. Known failing classes on the current tree: archive-implicit-dir-missing (F-C04), archive-empty-root-missing, fs-kind-confusion.",
+        "technique": "Lean 4 proof over executable model + skeleton extraction + differential correspondence",
+    },
+    "C11": {
+        "text": "For every source view: load_dir ids are strictly sorted (no duplicates) and are exactly the files listed in d with one of T's extensions; load_rec_dir ids are exactly those of d and of every directory below it reachable through readable directories; a missing directory is an error; a failing child hides nothing but its own subtree (own ids and every loadable sibling's ids stay); iter = ids.map load, iter_cached = the cached ids in order. Unbounded in listing sizes, depth and extension lists.",
+        "design_ref": "DESIGN.md §6 C11",
+        "note": "Trusted: Lean kernel; sort+dedup, cache and source views modelled. Tie: the dir engine runs load_dir / load_rec_dir / iter / iter_cached (and Arc<T>) through AssetCache over the real FileSystem, Zip, Tar, Embedded and a wrapper with unreadable directories, diffs against the model and checks the generated tree as oracle. Shares F-C04 and the empty-archive root with C04.",
+        "technique": "Lean 4 proof over executable model + differential correspondence",
+    },
 }
